@@ -135,6 +135,11 @@ class Trial:
         if unrec:
             bad.append('fix reports %s' % unrec[0])
         bad += compare_with_saved(a, self.sv, self.st)[:3]
+        # a file that grew is cut back AND reported recovered (FIXED is set by the truncation since 993feac)
+        for d, rel in getattr(self, 'grown', []):
+            if not any(t.startswith('status:recovered:%s:' % d) and t[len('status:recovered:%s:' % d):].replace('\\', '') == os.fsencode(rel).decode('latin1') for t in tags):
+                bad.append('%s:%s grew and was cut back by fix but is not reported `status:recovered`' % (d, rel))
+        self.grown = []
         r2 = a.run('check')
         t2 = [t for t in interesting(r2.tags) if not t.startswith('summary:')]
         if r2.rc != 0 or t2:
@@ -158,10 +163,13 @@ class Trial:
     def apply_devices(self, subset, rng):
         a = self.arr
         desc = []
+        self.grown = []
         for kind, dev in subset:
             if kind == 'd':
                 k = rng.choice(DATA_KINDS)
-                desc += ['%s[%s]: ' % (dev, k) + ', '.join(damage_data_disk(a, dev, k, rng))[:200]]
+                done = damage_data_disk(a, dev, k, rng)
+                self.grown += [(dev, x[len('grow '):x.rindex(' by ')]) for x in done if x.startswith('grow ')]
+                desc += ['%s[%s]: ' % (dev, k) + ', '.join(done)[:200]]
             else:
                 k = rng.choice(PAR_KINDS)
                 desc += damage_parity(a, dev, k, rng)
@@ -289,8 +297,7 @@ def swap_trials(chk, binary, rng, n):
     return done
 
 
-OBS_KEYS = {'parity-unaligned': 'F-C01-unaligned-parity-refused', 'grown-file': 'F-C01-grown-file-mtime-not-restored',
-            'no-blocks': 'F-C01-no-blocks-nothing-restored'}
+OBS_KEYS = {'parity-unaligned': 'F-C01-unaligned-parity-refused', 'no-blocks': 'F-C01-no-blocks-nothing-restored'}
 
 
 def report_obs(chk, name, msg, replay):
@@ -333,9 +340,11 @@ def observations(chk, binary):
         r = a.run('fix')
         st1 = os.stat(p)
         out['grown_file'] = {'fix_rc': r.rc, 'size_restored': st1.st_size == st0.st_size, 'mtime_restored': st1.st_mtime_ns == st0.st_mtime_ns}
-        if st1.st_size == st0.st_size and st1.st_mtime_ns != st0.st_mtime_ns:
-            report_obs(chk, 'grown-file', 'a file grown by 4 bytes (mtime kept) is truncated back by fix ("Fixed size") but its mtime is left at the time of the fix, although no other file has its size and time-stamp',
-                       {'recipe': 'd1/a 5000 B synced; append 4 bytes, restore mtime; fix; stat d1/a'})
+        if st1.st_size != st0.st_size or st1.st_mtime_ns != st0.st_mtime_ns:
+            # repaired by 993feac (F-C01-grown-file-mtime-not-restored): no longer attributed to a known finding
+            chk.violation('obs_grown-file', 'a file grown by 4 bytes (mtime kept) is %s by fix ("Fixed size") but its mtime is %s, although no other file has its size and time-stamp'
+                          % ('truncated back' if st1.st_size == st0.st_size else 'NOT truncated back', 'left at the time of the fix' if st1.st_mtime_ns != st0.st_mtime_ns else 'restored'),
+                          {'recipe': 'd1/a 5000 B synced; append 4 bytes, restore mtime; fix; stat d1/a'})
     shutil.rmtree(a.root, ignore_errors=True)
     # an array made only of zero-size files, links and dirs: blockmax is 0 and state_check skips everything
     a = Array(binary, nd=2, np_=1)
